@@ -19,11 +19,11 @@ import re, hashlib
 
 
 class Fn:
-    __slots__ = ('name', 'params', 'ret_ty', 'locals', 'blocks', 'sha', 'kind', 'line', 'vname', 'sig', 'vsig')
+    __slots__ = ('name', 'params', 'ret_ty', 'locals', 'blocks', 'sha', 'kind', 'line', 'vname', 'sig', 'vsig', '_zst')
 
     def __init__(self, name, kind):
         self.name = name; self.kind = kind; self.params = []; self.ret_ty = None
-        self.locals = {}; self.blocks = {}; self.sha = None; self.line = 0; self.vname = None; self.sig = ''; self.vsig = ''
+        self.locals = {}; self.blocks = {}; self.sha = None; self.line = 0; self.vname = None; self.sig = ''; self.vsig = ''; self._zst = None
 
 
 class Program:
